@@ -15,7 +15,7 @@ MIN_EVALS = {"quick": 3000, "thorough": 60000}
 MIN_EVENTS = {"order-sensitive user function calls": 100}
 TIMEOUT = {"quick": 600, "thorough": 3000}
 N_CASES = {"quick": 400, "thorough": 60000}     # per shard
-RULE = ("case = (registered model incl. 4 harness models, parameter vector, "
+RULE = ("case = (registered model incl. 6 harness models, parameter vector, "
         "dyadic abscissa array, orientation); every case evaluates 8 "
         "relations (order/shape, user function sees approach order, "
         "translation, baseline, modulus scaling, continuity, monotony, "
@@ -39,7 +39,7 @@ def shards(tier):
 def draw(rng, mk):
     if mk in gen.SHIPPED:
         prm = gen.draw_params(rng, mk)
-    elif mk in ("hm_order", "hm_sig"):
+    elif mk in ("hm_order", "hm_sig", "hm_long"):
         prm = gen.draw_params(rng, "hertz_para")
     elif mk == "hm_anc":
         prm = gen.draw_params(rng, "hertz_cone")
@@ -149,6 +149,12 @@ def one_case(rec, rng, cid, keys):
             rec.check(d0 >= d1, "order/user-function-sees-ascending",
                       "user function received delta[0]=%r < delta[-1]=%r"
                       % (d0, d1), case)
+            # (... and all of it: a function may depend on every sample)
+            rec.check(sz == n and d0 == x[0] and d1 == x[-1],
+                      "order/user-function-sees-part-of-the-abscissa",
+                      "user function received %d samples from %r to %r, the "
+                      "abscissa has %d from %r to %r"
+                      % (sz, d0, d1, n, x[0], x[-1]), case)
     # -- translation (exact on the dyadic grid)
     s = float(int(rng.integers(-2 ** 21, 2 ** 21)) * Q)
     p2 = gen.nanite_params(mk, dict(prm, contact_point=cp + s))
@@ -199,14 +205,25 @@ def one_case(rec, rng, cid, keys):
         hs = np.array([H * 2.0 ** -j for j in (0, 10, 20, 30, 40)])
         probe = np.concatenate([cp - hs, [cp, cp + H * 2.0 ** -40, cp + H]])
         Fc = md.model(p, probe) - b0
-        rec.check(np.all(Fc[5:] == 0), "continuity/out-of-contact-not-baseline",
-                  "F-b = %r at/after the contact point" % Fc[5:].tolist(),
-                  case)
-        rec.check(np.all(np.diff(Fc[:5]) <= 0) and
-                  abs(Fc[4]) <= 1e-6 * abs(Fc[0]) + 1e-300,
-                  "continuity/jump-at-contact",
-                  lambda: "F-b at depths H*2^-{0,10,20,30,40}: %r"
-                  % Fc[:5].tolist(), case)
+        if mk == "hm_long":
+            # (a force that acts before contact as well: continuity is the
+            #  agreement of the two one-sided limits)
+            rec.check(np.all(np.diff(Fc[:5]) <= 0) and
+                      abs(Fc[4] - Fc[6]) <= 1e-6 * abs(Fc[0]) + 1e-300 and
+                      abs(Fc[5] - Fc[6]) <= 1e-6 * abs(Fc[0]) + 1e-300,
+                      "continuity/jump-at-contact",
+                      lambda: "F-b just inside, at and just outside the "
+                      "contact point: %r" % Fc[4:7].tolist(), case)
+        else:
+            rec.check(np.all(Fc[5:] == 0),
+                      "continuity/out-of-contact-not-baseline",
+                      "F-b = %r at/after the contact point"
+                      % Fc[5:].tolist(), case)
+            rec.check(np.all(np.diff(Fc[:5]) <= 0) and
+                      abs(Fc[4]) <= 1e-6 * abs(Fc[0]) + 1e-300,
+                      "continuity/jump-at-contact",
+                      lambda: "F-b at depths H*2^-{0,10,20,30,40}: %r"
+                      % Fc[:5].tolist(), case)
         # monotony over the whole (descending) array: depth increases
         # (sorted by depth: the abscissa may be locally non-monotonic)
         Fd = F[np.argsort(-xin, kind="stable")]
